@@ -309,7 +309,7 @@ impl ProcessAccumulator {
                 ("R11-ctor-as-fn", ".map_err(BookKeepError::InvalidAccount)", ".map_err(|e: u8| -> (b: BookKeepError) ensures b == BookKeepError::InvalidAccount(e) { BookKeepError::InvalidAccount(e) })", 2),
                 ("R11-ctor-as-fn", ".map_err(BookKeepError::InvalidCommodity)", ".map_err(|e: u8| -> (b: BookKeepError) ensures b == BookKeepError::InvalidCommodity(e) { BookKeepError::InvalidCommodity(e) })", 2),
                 ("R6c-for-ref-vec", "for cd in &commodity.details {", "for di__ in 0..commodity.details.len() { let cd = &commodity.details[di__];", 1),
-                ("R6c-for-ref-vec", "for ad in &account.details {", "for ai__ in 0..account.details.len() { let ad = &account.details[ai__];", 1)],
+                ("R6c-for-ref-vec", "re:for (\\w+) in &account\\.details \\{", "for ai__ in 0..account.details.len() { let \\1 = &account.details[ai__];", 1)],
       loops={0: """
                     invariant
                         ctx.accounts.registered(canonical),
